@@ -119,11 +119,21 @@ func fixedRows(n int) [][5]float64 {
 
 var thoroughTier bool
 
+// stoppedC03: set once the run's verdict is settled by a violation elsewhere (core.Stopped).
+var stoppedC03 bool
+
 type c03stats struct {
 	scen, traces, s2 int64
 }
 
 func exploreClean(c *core.Ctx, label string, sc explore.Scenario, idx int, st3 *c03stats, cs map[string]any) {
+	if idx%8 == 0 && core.Stopped() {
+		c.NotExhaustive("an unexplained violation was found by another unit: remaining scenarios not run")
+		stoppedC03 = true
+	}
+	if stoppedC03 {
+		return
+	}
 	st := explore.DPOR(sc, explore.Opts{Races: true, MaxExec: 2000, Budget: 30 * time.Second})
 	st3.scen++
 	st3.traces += int64(st.Executions)
@@ -390,7 +400,7 @@ func helperCompUnit(c *core.Ctx, hc helperComp) {
 func init() {
 	core.Register(&core.Check{
 		ID:     "C03",
-		Rule:   "for every catalogued indicator and strategy (base, decorated, compound) x every configuration of the deep period box x input lengths {0,1,w-1..w+3,2w+2} (all of 0..2w+2 in the thorough tier) x input channel capacity {0,1,3} x unequal input lengths for multi-input indicators (each input in turn up to 6 shorter / 2 longer): the network producers -> pipeline -> independent readers is explored by DPOR with sleep sets over ALL Mazurkiewicz traces (a clean Kahn network has exactly one, which DPOR establishes dynamically by finding no conflicting co-enabled operations), plus an auxiliary delay-bounded (d<=1) search without independence assumptions, cut at 600 executions, on every 64th scenario (16th in the thorough tier); oracle at quiescence: no goroutine left, every output closed, no buffered leftovers, no panic, identical outputs on every schedule, no happens-before race; in addition seven networks of stream helpers whose termination follows from the anchored mechanism 'Operate/Operate3/First drain the longer input after the shorter ends' (First/Add/Operate3/Map over the branches of one Duplicate, all input lengths to 5 (8), all k, capacities {0,1,2}) with the same oracle plus equality with the slice model; plus every catalogued configuration shape with its periods multiplied by 70 (thorough: 150, 330) on inputs of w+3 and 2w+2 values under DPOR (termination that rests on a constant amount of buffering between branches lagging by a period difference); states = scenarios, transitions = scheduler events",
+		Rule:   "for every catalogued indicator and strategy (base, decorated, compound) x every configuration of the deep period box x input lengths {0,1,w-1..w+3,2w+2} (all of 0..2w+2 in the thorough tier) x input channel capacity {0,1,3} x unequal input lengths for multi-input indicators (each input in turn up to 6 shorter / 2 longer): the network producers -> pipeline -> independent readers is explored by DPOR with sleep sets over ALL Mazurkiewicz traces (a clean Kahn network has exactly one, which DPOR establishes dynamically by finding no conflicting co-enabled operations), plus an auxiliary delay-bounded (d<=1) search without independence assumptions, cut at 600 executions, on every 64th scenario (16th in the thorough tier); oracle at quiescence: no goroutine left, every output closed, no buffered leftovers, no panic, identical outputs on every schedule, no happens-before race; in addition seven networks of stream helpers whose termination follows from the anchored mechanism 'Operate/Operate3/First drain the longer input after the shorter ends' (First/Add/Operate3/Map over the branches of one Duplicate, all input lengths to 5 (8), all k, capacities {0,1,2}) with the same oracle plus equality with the slice model; plus every catalogued configuration shape with its periods multiplied by 70 (thorough: 150, 330) on inputs of w+3 and 2w+2 values under DPOR (termination that rests on a constant amount of buffering between branches lagging by a period difference); plus 40 pipelines of every indicator side by side in one execution and a Majority over 40 instances of every strategy (canonical schedule: anything shared between pipelines process-wide); states = scenarios, transitions = scheduler events",
 		Assume: []string{"input values are a fixed irregular series (termination depends on lengths, not values)", "the scheduler models Go's channel/WaitGroup/Mutex semantics at operation granularity; the number of OS threads is irrelevant for a data-race-free program and race freedom is checked on every explored execution"},
 		Units: func(tier string) []core.Unit {
 			var us []core.Unit
@@ -415,11 +425,19 @@ func init() {
 			}
 			for _, e := range cat.Inds {
 				e := e
-				us = append(us, core.Unit{Key: "large periods: " + e.Name, Cost: 120, Run: func(c *core.Ctx) { indLargeUnit(c, e) }})
+				us = append(us, core.Unit{Key: "large periods: " + e.Name, Cost: 120, First: true, Run: func(c *core.Ctx) { indLargeUnit(c, e) }})
 			}
 			for _, e := range cat.Strats {
 				e := e
-				us = append(us, core.Unit{Key: "large periods: " + e.Name, Cost: 160, Run: func(c *core.Ctx) { stratLargeUnit(c, e) }})
+				us = append(us, core.Unit{Key: "large periods: " + e.Name, Cost: 160, First: true, Run: func(c *core.Ctx) { stratLargeUnit(c, e) }})
+			}
+			for _, e := range cat.Inds {
+				e := e
+				us = append(us, core.Unit{Key: "wide: " + e.Name, Cost: 80, First: true, Run: func(c *core.Ctx) { indWideUnit(c, e) }})
+			}
+			for _, e := range cat.Strats {
+				e := e
+				us = append(us, core.Unit{Key: "wide: " + e.Name, Cost: 80, First: true, Run: func(c *core.Ctx) { stratWideUnit(c, e) }})
 			}
 			for _, hc := range helperComps {
 				hc := hc
